@@ -46,7 +46,9 @@ type ChoicePoint struct {
 	N       int    // number of alternatives
 	Chosen  int    // alternative taken
 	Preempt []bool // Preempt[i]: taking alternative i switches away from a runnable thread
-	Step    int
+	// OtherThread[i]: alternative i runs a different thread (or the clock) than alternative 0
+	OtherThread []bool
+	Step        int
 }
 
 type abortSignal struct{}
@@ -327,9 +329,10 @@ func (sc *sched) run(body func()) {
 		}
 		choice := 0
 		if len(en) > 1 {
-			cp := ChoicePoint{N: len(en), Step: sc.steps, Preempt: make([]bool, len(en))}
+			cp := ChoicePoint{N: len(en), Step: sc.steps, Preempt: make([]bool, len(en)), OtherThread: make([]bool, len(en))}
 			lastEnabled := sc.last != nil && nThreadAlts > 0 && en[0].t == sc.last
 			for i, a := range en {
+				cp.OtherThread[i] = a.t != en[0].t
 				if a.t == nil {
 					// letting time pass while a thread could run models "that thread was slow"
 					cp.Preempt[i] = nThreadAlts > 0
